@@ -156,6 +156,14 @@ func famIndexAPI(w *bufio.Writer, seed uint64, n int) error {
 						b.Del(k)
 						delete(ref, string(k))
 					}
+				case 2:
+					// a Merge operand persisted as such (a single batch passes the merger unmerged):
+					// segments holding Merge operations are indexed like any other
+					if r.chance(1, 2) {
+						o := []byte(fmt.Sprintf("m%d", round))
+						b.Merge(k, o)
+						ref[string(k)] = append(append(append([]byte{}, ref[string(k)]...), ':'), o...)
+					}
 				}
 			}
 			c.ExecuteBatch(b, moss.WriteOptions{})
